@@ -2,6 +2,7 @@ import DaskModel.DriverLib
 import DaskModel.Model.Cumulative
 import DaskModel.Model.Overlap
 import DaskModel.Model.Frame
+import DaskModel.Model.TreeReduce
 open Dask
 
 /-! Line-protocol handlers of group dfrows (C36 C37 C42 C43 C46). Cells: an integer or `none`. -/
@@ -246,6 +247,68 @@ def hPipeSpec : Handler := handler fun args =>
     pure (ofFrame (Dask.Frame.pipeline ops (← toFrame? rows)))
   | _ => none
 
+/-! ### C37 -/
+open Dask.TreeReduce in
+def toSE? : SExp → Option SE
+  | .sym "none" => some .default
+  | .sym "false" => some .off
+  | .int k => some (.n k)
+  | _ => none
+
+/-- `(treeshape n se)` ↦ `(ok (level batch sizes…)…)` | `(raised)`; the batches `_layer` forms at each level -/
+def hTreeShape : Handler := handler fun args =>
+  match args with
+  | [n, se] => do
+    let n ← n.toNat?
+    match Dask.TreeReduce.splitEvery (← toSE? se) with
+    | none => pure (.list [.sym "raised"])
+    | some none => pure (.list [.sym "ok"])
+    | some (some k) =>
+      let tr := Dask.TreeReduce.treeTrace (fun (bs : List Nat) => bs.headD 0) k (n + 1) (List.range n)
+      pure (.list (.sym "ok" :: tr.map (fun lvl => SExp.ofNats (lvl.map List.length))))
+  | _ => none
+
+/-- `(reduce <how> <skipna> <se> (parts…))` ↦ `(ok <cell>)` | `(ok <cell> <n>)` for mean | `(raised)` -/
+def hReduce : Handler := handler fun args =>
+  match args with
+  | [.sym how, sk, se, parts] => do
+    let sk ← sk.toBool?
+    let parts ← toCellss? parts
+    match Dask.TreeReduce.splitEvery (← toSE? se) with
+    | none => pure (.list [.sym "raised"])
+    | some se =>
+      let wrap (r : Option (Option Int)) : SExp := match r with
+        | some c => .list [.sym "ok", ofCell c]
+        | none => .list [.sym "fuel"]
+      match how with
+      | "sum" => pure (wrap (Dask.TreeReduce.kernelReduce se (Dask.TreeReduce.sumK sk) parts))
+      | "prod" => pure (wrap (Dask.TreeReduce.kernelReduce se (Dask.TreeReduce.prodK sk) parts))
+      | "max" => pure (wrap (Dask.TreeReduce.kernelReduce se (Dask.TreeReduce.maxK sk) parts))
+      | "min" => pure (wrap (Dask.TreeReduce.kernelReduce se (Dask.TreeReduce.minK sk) parts))
+      | "count" => match Dask.TreeReduce.daskCount se parts with
+        | some n => pure (.list [.sym "ok", .int n])
+        | none => pure (.list [.sym "fuel"])
+      | "mean" => match Dask.TreeReduce.daskMean se sk parts with
+        | some (s, n) => pure (.list [.sym "ok", ofCell s, .int n])
+        | none => pure (.list [.sym "fuel"])
+      | _ => none
+  | _ => none
+
+/-- `(reducespec <how> <skipna> (cells…))` ↦ pandas on the whole column -/
+def hReduceSpec : Handler := handler fun args =>
+  match args with
+  | [.sym how, sk, xs] => do
+    let sk ← sk.toBool?
+    let xs ← toCells? xs
+    match how with
+    | "sum" => pure (ofCell (Dask.TreeReduce.sumK sk xs))
+    | "prod" => pure (ofCell (Dask.TreeReduce.prodK sk xs))
+    | "max" => pure (ofCell (Dask.TreeReduce.maxK sk xs))
+    | "min" => pure (ofCell (Dask.TreeReduce.minK sk xs))
+    | "count" => pure (.int (Dask.TreeReduce.countK xs))
+    | _ => none
+  | _ => none
+
 end DfRows
 
 open DfRows in
@@ -254,6 +317,7 @@ def table : List (String × Handler) := [
   ("aggss", hAggSS), ("aggvs", hAggVS),
   ("overlap", hOverlap), ("winspec", hWinSpec), ("sideok", hSideOK), ("combined", hCombined),
   ("rollblockwise", hRollBlockwise), ("fillu", hFillU), ("fillspec", hFillSpec),
-  ("pipe", hPipe), ("pipespec", hPipeSpec)]
+  ("pipe", hPipe), ("pipespec", hPipeSpec),
+  ("treeshape", hTreeShape), ("reduce", hReduce), ("reducespec", hReduceSpec)]
 
 def main : IO Unit := runDriver table
